@@ -595,7 +595,8 @@ Fixpoint resp_run (fuel : nat) (m : cmethod) (closed sdead sevt : bool) (chk : b
     | QStart _ =>
       match b with
       | [] => QNeed (QStart false) body0 b
-      | _ => run true QLine status0 body0 b
+      | _ => (* parseMessage: a closure seen while waiting for the message to start is forgotten *)
+             resp_run fuel' m false sdead sevt true QLine status0 body0 b
       end
     | QLine =>
       if premature then QFail HTTPExc (pinfo0 sdead status0) body0 b else
